@@ -26,6 +26,10 @@ def render(e):
         return "{{#ifeq:" + render(e[1]) + "|" + render(e[2]) + "|" + render(e[3]) + "|" + render(e[4]) + "}}"
     if t == "SW":
         return "{{#switch:" + render(e[1]) + "|" + e[2] + "=" + render(e[3]) + "|#default=" + render(e[4]) + "}}"
+    if t == "SWG":
+        # fall-through group of bare labels, then label=value, then a bare last argument as default
+        return "{{#switch:" + render(e[1]) + "|" + "|".join(e[2][:-1]) + ("|" if len(e[2]) > 1 else "") + e[2][-1] + "=" + render(e[3]) \
+            + "|" + render(e[4]) + "}}"
     if t == "SEQ":
         return "".join(render(x) for x in e[1])
     raise ValueError(t)
@@ -86,6 +90,11 @@ def ev(e, frame, lib, path=(), hooks=None):
     if t == "SW":
         x = ev(e[1], frame, lib, path, hooks).strip()
         if e[2].strip() == x:
+            return addnl(ev(e[3], frame, lib, path, hooks).strip())
+        return addnl(ev(e[4], frame, lib, path, hooks).strip())
+    if t == "SWG":
+        x = ev(e[1], frame, lib, path, hooks).strip()
+        if x in [l.strip() for l in e[2]]:
             return addnl(ev(e[3], frame, lib, path, hooks).strip())
         return addnl(ev(e[4], frame, lib, path, hooks).strip())
     if t == "C":
@@ -155,6 +164,8 @@ class Grammar:
                     for vals in itertools.product(*[self.exprs(s, inbody, callees) for s in split]):
                         out.append(("IF",) + vals)
                         out.append(("SW", vals[0], "x", vals[1], vals[2]))
+                        if size == 4:
+                            out.append(("SWG", vals[0], ["y", "x", "z"], vals[1], vals[2]))
             if self.control and size >= 5:
                 for split in itertools.product(range(1, size), repeat=4):
                     if sum(split) != size - 1:
@@ -180,7 +191,7 @@ def mentions(e, name):
         return e[1] == name or any(mentions(v, name) for _, v in e[2])
     if t == "SEQ":
         return any(mentions(x, name) for x in e[1])
-    if t == "SW":
+    if t in ("SW", "SWG"):
         return any(mentions(x, name) for x in (e[1], e[3], e[4]))
     return any(mentions(x, name) for x in e[1:])
 
@@ -195,6 +206,6 @@ def depth(e):
         return 1 + max([depth(v) for _, v in e[2]] + [0])
     if t == "SEQ":
         return max(depth(x) for x in e[1])
-    if t == "SW":
+    if t in ("SW", "SWG"):
         return 1 + max(depth(x) for x in (e[1], e[3], e[4]))
     return 1 + max(depth(x) for x in e[1:])
